@@ -10,7 +10,7 @@ from checks.common import *  # noqa
 PROPERTY = "C02"
 
 
-def h_history(ctx, hist, fr_max, arc_max, aa0, ask, ackpl, send_only, ard="sym", latency=0, driver="full", ackpl_opt=False):
+def h_history(ctx, hist, fr_max, arc_max, aa0, ask, ackpl, send_only, ard="sym", latency=0, driver="full", ackpl_opt=False, static=False):
     clock = fresh_env(ctx)
     lite = driver == "lite"
     radio, nrf = new_lite(clock) if lite else new_rf24(clock)
@@ -30,6 +30,9 @@ def h_history(ctx, hist, fr_max, arc_max, aa0, ask, ackpl, send_only, ard="sym",
     radio.link = link
     if not lite:
         nrf.allow_ask_no_ack = True  # (always allowed by the lite driver)
+    if static:  # static payload width (2 bytes, as the payloads below): the fate reported must not depend on the length mode
+        nrf.dynamic_payloads = False
+        nrf.payload_length = 2
     if ackpl:
         nrf.ack = True
     if not aa0:
@@ -175,6 +178,10 @@ def jobs(tier):
                                 send_only=so, ard="sym" if sym_ard else ards[n % 3], **({"ackpl_opt": True} if so == "mix" else {})),
                            cost=(fr_max + 1) * arc_max * len(hist) ** 2 * (0.1 if (ask or not aa0) else 1)
                            * (8 if sym_ard else 1)))
+    for hist, (aa0, ask, ackpl, so) in ((("send", "resend"), (True, True, 0, False)), (("sendlist",), (True, True, 0, False)),
+                                        (("send", "send"), (True, False, 0, False)), (("send", "resend"), (False, False, 0, False))):
+        out.append(Job("send-resend-history-static-payloads", h_history,
+                       dict(hist=list(hist), fr_max=1, arc_max=3, aa0=aa0, ask=ask, ackpl=ackpl, send_only=so, ard=250, static=True), cost=20))
     # the same contract on the stripped-down driver (rf24_lite.RF24; C20 states its parity with the full driver in detail)
     for hist, fr_max, arc_max in ((("send", "send", "send"), 0, 1), (("send", "resend"), 1, 2), (("sendlist",), 1, 2)):
         out.append(Job("send-resend-history-lite-driver", h_history,
